@@ -83,8 +83,8 @@ pub fn spell_string(rng: &mut Rng, s: &str) -> String {
 }
 
 pub fn gen_number(rng: &mut Rng) -> String {
-	const EDGE: [&str; 30] = [
-		"0", "-0", "1", "-1", "9", "10", "4294967295", "4294967296", "9007199254740991", "9007199254740992",
+	const EDGE: [&str; 32] = [
+		"0", "-0", "1", "-1", "9", "10", "255", "256", "4294967295", "4294967296", "9007199254740991", "9007199254740992",
 		"9007199254740993", "9223372036854775807", "9223372036854775808", "-9223372036854775808",
 		"-9223372036854775809", "18446744073709551615", "18446744073709551616", "2147483647", "2147483648",
 		"-2147483648", "-2147483649", "1.0", "0.5", "-0.0", "1e2", "1E+2", "1e-2", "1.5e300", "1e400",
